@@ -62,6 +62,34 @@ shape("args_jwt_opts", "src/core_codemods/jwt_decode_verify.py", ["C16"], "jwt_o
        "JwtDecodeVerifyTransformer.replace_args", "JwtDecodeVerifyTransformer.on_result_found", "is_verify_keyword"],
       doc="jwt-decode-verify: _replace_opts_dict (a **spread entry raises) / replace_options_arg / is_verify_keyword")
 
+shape("args_p2k", "src/codemodder/utils/utils.py", ["C16"], "p2k_shape", "p2k_variant", "P2kCarriesOver", ["positional_to_keyword"],
+      doc="utils.positional_to_keyword: P2kRaisesOnStar = as written (naming a starred argument raises, file untouched); "
+          "P2kCarriesOver = starred arguments and everything after them carried over unchanged")
+shape("args_send_file", "src/core_codemods/replace_flask_send_file.py", ["C16"], "send_file_shape", "args_variant", "ArgsAsWritten",
+      ["ReplaceFlaskSendFile.leave_Call"],
+      doc="replace-flask-send-file leave_Call: [p0, p1, *positional_to_keyword(original_node.args[1:], pos_to_key_map)]")
+
+
+def _send_file_map(tree, repo):
+    cls = find_def(tree, "ReplaceFlaskSendFile")
+    for st in getattr(cls, "body", []):
+        tgt = st.target if isinstance(st, ast.AnnAssign) else (st.targets[0] if isinstance(st, ast.Assign) and len(st.targets) == 1 else None)
+        if isinstance(tgt, ast.Name) and tgt.id == "pos_to_key_map":
+            try:
+                v = ast.literal_eval(st.value)
+            except Exception:
+                raise Unrecognised("pos_to_key_map is not a literal")
+            if not (isinstance(v, list) and all(x is None or isinstance(x, str) for x in v)):
+                raise Unrecognised("pos_to_key_map is not a list of names / None")
+            return v
+    raise Unrecognised("ReplaceFlaskSendFile.pos_to_key_map not found")
+
+
+custom("args_send_file_map", "src/core_codemods/replace_flask_send_file.py", ["C16"], "send_file_pos_map", "list (option str)",
+       ["mimetype", "as_attachment", "download_name", "conditional", "etag", "last_modified", "max_age"], _send_file_map,
+       printer=lambda v: "[" + "; ".join("None" if x is None else f"Some {coq_str(x)}" for x in v) + "]" if v else "([] : list (option str))",
+       doc="replace-flask-send-file pos_to_key_map")
+
 # ---- NewArg tables ------------------------------------------------------------------------------------------------
 # files scanned (the anchors of C16); every NewArg(...) / replace_args(...) / add_arg_to_call(...) call in them must be understood
 _NEWARG_FILES = [
